@@ -198,6 +198,14 @@ func (s *snapshotSink) done(err error) (snapshotMeta, error) {
 	}
 	s.meta.size = info.Size()
 
+	// publish under lock: a local snapshot and an installSnapshot can be
+	// written concurrently, the slower one must not replace a newer snapshot
+	s.snaps.mu.Lock()
+	defer s.snaps.mu.Unlock()
+	if s.meta.index < s.snaps.index {
+		err = ErrNoUpdates // latest snapshot already covers this one
+		return s.meta, err
+	}
 	file := filepath.Join(s.snaps.dir, "meta.tmp")
 	temp, err := os.OpenFile(file, os.O_WRONLY|os.O_CREATE|os.O_TRUNC, 0600)
 	if err != nil {
@@ -220,9 +228,7 @@ func (s *snapshotSink) done(err error) (snapshotMeta, error) {
 		return s.meta, err
 	}
 	temp = nil
-	s.snaps.mu.Lock()
 	s.snaps.index, s.snaps.term = s.meta.index, s.meta.term
-	s.snaps.mu.Unlock()
 	_ = s.snaps.applyRetain() // todo: trace error
 	return s.meta, nil
 }
